@@ -1,12 +1,13 @@
 SPECIFICATION Spec
 CONSTANTS
-  TopTypes = {"int", "ptr", "AI3", "AIX", "AC4", "ACX", "APX", "MC", "B", "N", "A", "U", "SA", "SC", "SW", "B2", "AW2", "AH2", "MW", "SW2", "SH", "double", "float", "AD2", "SD", "UD", "AS"}
+  TopTypes = {"int", "ptr", "AI3", "AIX", "AC4", "ACX", "APX", "MC", "B", "N", "A", "U", "SA", "SC", "SW", "B2", "AW2", "AH2", "MW", "SW2", "SH", "double", "float", "AD2", "SD", "UD", "UB1", "UB2", "UB3", "SAL", "AS"}
   MaxTok = 8
   MaxIdx = 2
   AllowAgg = FALSE
   DevOn = {}
   Salt = 0
   EmitCases = FALSE
+  FormsOn = {"plain"}
   Prune = TRUE
 INVARIANTS TypeOK StackDepth ListSortedDisjoint Refinement
 CHECK_DEADLOCK FALSE
